@@ -21,6 +21,12 @@ Open Scope N_scope.
 Theorem C20_counter_width : temp_counter_bits = 64.
 Proof. reflexivity. Qed.
 
+(* nothing but temp_file_name touches the counter (generated from the whole crate on every check): the theorems
+   below are about calls that all run the one generated program on it *)
+Theorem C20_counter_private : temp_counter_foreign_uses = 0.
+Proof. reflexivity. Qed.
+Print Assumptions C20_counter_private.
+
 Theorem C20_unique : forall (nthreads : nat) (sched : list nat),
   exists st, run temp_counter_ops temp_count_from temp_counter_init nthreads sched = Some st /\
     counter st = nth_count temp_counter_init (completed st) /\
